@@ -931,6 +931,16 @@ def install(it):
             return float_to_fp(r)
         return it.uf_pow(x, y)
     M['math.Pow'] = m_pow
+    # bit views of floats (NaN payloads are not modelled: fpToIEEEBV of a NaN is an unspecified but fixed pattern)
+    def m_f64bits(it_, a):
+        r = z3.simplify(z3.fpToIEEEBV(a[0]))
+        return r.as_long() if z3.is_bv_value(r) else r
+    M['math.Float64bits'] = m_f64bits
+    M['math.Float32bits'] = m_f64bits
+    M['math.Float64frombits'] = lambda it_, a: z3.simplify(z3.fpBVToFP(a[0] if is_sym(a[0]) else z3.BitVecVal(a[0], 64), z3.Float64()))
+    M['math.Float32frombits'] = lambda it_, a: z3.simplify(z3.fpBVToFP(a[0] if is_sym(a[0]) else z3.BitVecVal(a[0], 32), z3.Float32()))
+    M['math.IsNaN'] = lambda it_, a: it.simp_bool(z3.fpIsNaN(a[0]))
+    M['math.IsInf'] = lambda it_, a: it.simp_bool(z3.And(z3.fpIsInf(a[0]), z3.BoolVal(True) if (not is_sym(a[1]) and a[1] == 0) else (z3.fpIsPositive(a[0]) if (not is_sym(a[1]) and a[1] > 0) else z3.fpIsNegative(a[0]))))
     it.log_calls = []
 
 
